@@ -186,3 +186,25 @@ Proof.
   eapply level_indices; [apply tree_ok_of_valid; eassumption| |exact Hr].
   apply G_ps_new. destruct idx_inv_closed as [_ [_ [_ [_ [_ H0]]]]]. exact H0.
 Qed.
+
+(** * consequence for C03: the key-uniqueness hypothesis of the validator's soundness theorem
+      holds of the state the parser hands to it *)
+Theorem parse_relations c0 toks m :
+  plain c0 = true -> valid c0 = true ->
+  do_parse c0 toks = OOk m -> is_set s_ignore_errors (build_self c0) = false ->
+  exists st, run_level c0 toks = ROk st /\ m = reported c0 st /\ Relations (build_self c0) (mt st).
+Proof.
+  intros Hp Hv Hd Hi. destruct (do_parse_sound c0 toks m Hd Hi) as [st [Hr [Hm Hrel]]].
+  exists st. split; [exact Hr|split; [exact Hm|]]. apply Hrel.
+  unfold fm_wf. unfold run_level in Hr. cbn zeta in Hr.
+  apply (root_indices c0 toks st Hp Hv Hr).
+Qed.
+
+Theorem level_relations fuel c toks st0 st :
+  tree_ok fuel c -> G c idx_inv st0 -> get_matches_with fuel c toks st0 = ROk st ->
+  Relations c (mt st).
+Proof.
+  intros Hok HG Hr. destruct fuel as [|f]; [destruct Hok|]. pose proof Hok as [_ [Happ _]].
+  apply (gmw_sound (S f) c toks st0 st Happ Hr). unfold fm_wf.
+  apply (level_indices (S f) c toks st0 st Hok HG Hr).
+Qed.
